@@ -203,6 +203,10 @@ fn library_case(backend: Backend, sources: &Sources, dest: Dest, work: &Path, ex
         }
         (Ok((text, warnings)), Ok(w)) => {
             if !writable {
+                // (/dev/full only refuses a write of at least one byte: an empty text is "written")
+                if text.is_empty() && matches!(dest, Dest::DevFull) {
+                    return None;
+                }
                 return Some(("unwritable-ok", format!("destination {dest:?} cannot be written but compile() returned Ok")));
             }
             if &w != warnings {
@@ -825,7 +829,15 @@ pub fn run(tier: Tier, seed: u64, replay: Option<String>) -> i32 {
         let mut drv = Driver::new(seed, 20, 2500);
         let streams: Vec<Vec<u32>> = drv.draw(n_inputs).iter().map(|t| t.current()).collect();
         for (idx, s) in streams.iter().enumerate() {
-            let ms = gen_set(s, &gen_cfg());
+            let mut ms = gen_set(s, &gen_cfg());
+            // every ninth input consists of modules without assignments (legal; the compiled
+            // text is empty or a line break, and has to be delivered like any other)
+            if idx % 9 == 4 {
+                for m in ms.modules.iter_mut() {
+                    m.items.clear();
+                    m.imports.clear();
+                }
+            }
             let mut src = Src::new(s);
             for _ in 0..5 {
                 src.raw();
